@@ -409,6 +409,9 @@ class Canon:
         while stack:
             x, first = stack.pop()
             k = x.get("k")
+            if k == "For" and isinstance(x.get("iter"), dict):
+                stack.append((x["iter"], False))        # the iterated expression is evaluated once, before the first pass
+                continue
             if k in ("Closure", "For", "While", "Loop", "Match"):
                 continue
             if k == "If":
